@@ -24,6 +24,6 @@ PROP = dict(
                  "so there is no failure point after their last task; install/remove changes carry a tail task standing for the rest of the snapstate change",
                  "profile clause (3) is only judged for snaps whose recorded Setup view was in sync before the failed change"],
     engines=[
-        gt("history", "overlord/ifacestate", "TestVerifC22", dict(checks=40, shards=4), dict(checks=400, shards=16)),
+        gt("history", "overlord/ifacestate", "TestVerifC22", dict(checks=30, shards=4), dict(checks=250, shards=16)),
     ],
 )
